@@ -184,12 +184,12 @@ pub fn run(args: &Args, rep: &Arc<Report>) {
         }
     }
     // many frames: the coded frame number grows by a byte at 128, 2048, 65536 frames, which changes frame sizes
-    for &nf in if thorough { &[127usize, 129, 2047, 2049, 4097, 65535, 65537, 70000][..] } else { &[129usize, 2049, 4100][..] } {
+    for &nf in if thorough { &[127usize, 129, 1023, 1025, 1300, 2047, 2049, 3000, 4097, 65535, 65537, 70000][..] } else { &[129usize, 1300, 2049, 4100][..] } {
         cases.push(mk(32, nf * 32 + 5, 1, 1, 16));
         cases.push(mk(32, nf * 32, 3, 2, 8));
     }
     rep.set_rule(
-        "streams of 129 / 2049 / 4100 (thorough: up to 70000) constant frames of 32 samples (frame-number length boundaries); complete over input length: bs in {32,33,64,65,192,255,256,257} x every length 0..=3*bs x content{silence,1-LSB noise,full-scale noise} x ch{1,2} x bps{8,16,24}; bs 576: every residue x F{0,1}; bs 4096: every residue (thorough: F{0,1}, noisy content); bs 32767: residues with constant content (thorough: all). Each case encoded ST, MT and frame-level. Non-trivial = stream ends in a short final block.",
+        "streams of 129 / 1300 / 2049 / 4100 (thorough: up to 70000) constant frames of 32 samples (frame-number length boundaries); complete over input length: bs in {32,33,64,65,192,255,256,257} x every length 0..=3*bs x content{silence,1-LSB noise,full-scale noise} x ch{1,2} x bps{8,16,24}; bs 576: every residue x F{0,1}; bs 4096: every residue (thorough: F{0,1}, noisy content); bs 32767: residues with constant content (thorough: all). Each case encoded ST, MT and frame-level. Non-trivial = stream ends in a short final block.",
     );
     let n = cases.len();
     let chunk = 32;
